@@ -179,6 +179,7 @@ Definition dec_gop (opc arg : N) : option gop :=
   match opc with
   | 1 => Some GBlkReadonly | 2 => Some GBlkFlush | 3 => Some GConsoleSize | 4 => Some GConsoleEmergWrite
   | 5 => Some GGpuGetEdid | 6 => Some GNetHeader | 7 => Some (GNetSend arg) | 8 => Some (GRngRequest arg)
+  | 9 => Some (GGpuEdidVia 9) | 10 => Some (GGpuEdidVia 10) | 11 => Some GNetRecvHdr
   | _ => None
   end.
 
